@@ -608,6 +608,19 @@ def mode_trace(data):
             if start <= lasti < end:
                 return depth
         return 0
+    full_table = list(dis._parse_exception_table(code))
+
+    def blocks_at(lasti):
+        """the handler chain of a position, innermost last, from CPython's own exception table: what the blocks of a
+        snapshot taken at that position must be"""
+        chain, cur = [], lasti
+        for _ in range(64):
+            e = next((x for x in full_table if x.start <= cur < x.end), None)
+            if e is None:
+                break
+            chain.append((e.target, e.depth))
+            cur = e.target
+        return chain[::-1]
     events = []
 
     def sink(name, f):
@@ -643,7 +656,9 @@ def mode_trace(data):
             del events[:]
             try:
                 d = lowlevel.inspect_frame(frame)
-                end = {"e": "end", "result": "ok", "nstack": len(d.stack)}
+                lb = next((e["lasti"] for e in reversed(events) if e["e"] == "lasti"), None)
+                end = {"e": "end", "result": "ok", "nstack": len(d.stack),
+                       "blocks_ok": [(b.handler, b.level) for b in d.blocks] == blocks_at(lb)}
             except RuntimeError:
                 end = {"e": "end", "result": "giveup", "nstack": 0}
                 out["giveup"] += 1
@@ -654,13 +669,15 @@ def mode_trace(data):
             evs = list(events) + [end]
             for e in evs:
                 for k, dflt in (("seen", 0), ("lasti", 0), ("depth", 0), ("n", 0), ("unknown_top", False), ("owned", False),
-                                ("i", 0), ("result", "-"), ("nstack", 0)):
+                                ("i", 0), ("result", "-"), ("nstack", 0), ("blocks_ok", True)):
                     e.setdefault(k, dflt)
             pos = sorted({e["lasti"] for e in evs if e["e"] == "lasti"})
             tr = {"events": evs, "hd": [[p, hd_at(p)] for p in pos]}
             if any(e["e"] == "header" and e["unknown_top"] for e in evs):
                 out["unknown_top"] += 1
-            if any(e["e"] == "retry" for e in evs):
+            if not end["blocks_ok"]:
+                out["traces"].insert(0, tr)          # never left to the sampling below
+            elif any(e["e"] == "retry" for e in evs):
                 out["with_retry"] += 1
                 out["traces"].append(tr)
             else:
